@@ -218,6 +218,122 @@ def combine_harness(ns):
     return run
 
 
+# ------------------------------------------------------------------------------------------------ space-time initial conditions
+def load_initial(enc=None, transform=None):
+    """compute_initial_condition_01 from source: interpolation of the boundary data -> symbolic coefficient vectors (contract of approx.interpolate, C17),
+    np.linalg.solve -> contract "B X = R" (2x2, nonsingular), active_deriv -> transliterated bspline_cy kernel on a SYMBOLIC time knot vector"""
+    import sys, types
+    from cyx.load import load_pyx
+    cy = load_pyx('pyiga/bspline_cy.pyx', encoded=enc); cy['np'] = SymNP()
+    bns = {}
+    srcload.load_defs('pyiga/bspline.py', ['_parse_bdspec'], bns, encoded=enc)
+    class LinalgNP(SymNP):
+        @property
+        def linalg(self):
+            def solve(B, Rhs):
+                B = np.asarray(B, dtype=object); Rhs = np.asarray(Rhs, dtype=object)
+                c = sx.ctx()
+                X = np.empty(Rhs.shape, dtype=object)
+                for idx in np.ndindex(*Rhs.shape): X[idx] = c.fresh('sol')
+                det = B[0, 0] * B[1, 1] - B[0, 1] * B[1, 0]
+                # the routine must set up a uniquely solvable 2x2 system (np.linalg.solve would raise / return garbage otherwise)
+                c.check(lift(det) != 0, 'compute_initial_condition_01: the 2x2 boundary collocation system is uniquely solvable')
+                c.assume(lift(det) != 0)
+                P = B.dot(X)
+                for idx in np.ndindex(*Rhs.shape): c.assume(lift(P[idx]) == lift(Rhs[idx]))
+                return X
+            return _NS(solve=solve)
+    pkg = 'symasm%d' % id(cy)
+    ns = {'np': LinalgNP(ints_object=False), 'itertools': itertools, 'bspline': _NS(active_deriv=cy['active_deriv'], **bns), '__package__': pkg, '__name__': pkg + '.assemble'}
+    srcload.load_defs('pyiga/assemble.py', ['slice_indices', 'compute_initial_condition_01'], ns, encoded=enc, transform=transform)
+    INTERP = {}
+    def interpolate(kvs, f, geo=None):
+        n = int(np.prod([kv.numdofs for kv in kvs]))
+        return np.array([Sym(z3.Real('%s_%d' % (f, i))) for i in range(n)] + [None], dtype=object)[:-1]
+    pm = types.ModuleType(pkg); pm.__path__ = []
+    am = types.ModuleType(pkg + '.approx'); am.interpolate = interpolate
+    sys.modules[pkg] = pm; sys.modules[pkg + '.approx'] = am
+    return ns
+
+
+def initial_condition_harness(ns, dim, p, nint, fixed_interval, only=None):
+    """for every time axis and side: the coefficients assigned to the two boundary slices reproduce value (g0) and time derivative (g1) on that face"""
+    from checks.bsp_oracle import symbolic_knots, KV, Oracle
+    def run(c):
+        kvz, pre = symbolic_knots(p, nint, 't')
+        for q in pre: c.assume(q)
+        if fixed_interval:
+            c.assume(z3.And(kvz[0] == 0, kvz[-1] == 1))
+        tkv = KV(kvz, p)
+        nt = tkv.numdofs
+        class SKV:
+            def __init__(self, n): self.numdofs = n; self.p = 1
+        others = [SKV(2), SKV(3)][:dim - 1]
+        class Geo:
+            def boundary(self, bdspec): return 'bdgeo'
+        for bdax in range(dim):
+            for side in (0, 1):
+                if only is not None and (bdax, side) != only: continue
+                kvs = list(others); kvs.insert(bdax, tkv)
+                N = tuple(kv.numdofs for kv in kvs)
+                idx, vals = ns['compute_initial_condition_01'](kvs, Geo(), (bdax, side), 'g0', 'g1', physical=True)
+                idx = [int(i) for i in idx]; vals = list(np.asarray(vals, dtype=object).ravel())
+                nb = int(np.prod([kv.numdofs for kv in others])) if others else 1
+                ok = [z3.BoolVal(len(idx) == 2 * nb and len(vals) == 2 * nb and len(set(idx)) == 2 * nb)]
+                if len(idx) == 2 * nb and len(vals) == 2 * nb:
+                    coef = dict(zip(idx, vals))
+                    T = kvz[0] if side == 0 else kvz[-1]
+                    orc = Oracle(kvz, p, T)
+                    # all basis functions of the time direction that do not vanish (value or derivative) at the face are among the two boundary ones
+                    bnd = [0, 1] if side == 0 else [nt - 2, nt - 1]
+                    for m, bi in enumerate(itertools.product(*[range(kv.numdofs) for kv in others]) if others else [()]):
+                        val = z3.RealVal(0); der = z3.RealVal(0)
+                        for k in bnd:
+                            full = list(bi); full.insert(bdax, k)
+                            I = int(np.ravel_multi_index(tuple(full), N))
+                            if I not in coef: ok.append(z3.BoolVal(False)); continue
+                            val = val + orc.N(k) * sx._toreal(lift(coef[I])); der = der + orc.dN(k, 1) * sx._toreal(lift(coef[I]))
+                        ok.append(val == z3.Real('g0_%d' % m)); ok.append(der == z3.Real('g1_%d' % m))
+                c.check(z3.And(*ok), 'compute_initial_condition_01(time axis %d, side %d): the spline takes the interpolated value g0 and time derivative g1 on the face' % (bdax, side))
+        c.witness('initial')
+    return run
+
+
+REPLAY_INIT = r"""
+import sys, json, numpy as np
+w = json.load(sys.stdin)
+from pyiga import assemble, bspline, geometry
+bad = []
+for (a, b) in ((0.0, 1.0), (0.0, 2.0), (1.0, 3.0)) if not w.get('unit_interval_only') else ((0.0, 1.0),):
+    for dim in (2, 3):
+        for side in (0, 1):
+            for bdax in range(dim):
+                kvt = bspline.make_knots(2, a, b, 3)
+                others = [bspline.make_knots(2, 0.0, 1.0, 2), bspline.make_knots(1, 0.0, 1.0, 3)][:dim - 1]
+                kvs = list(others); kvs.insert(bdax, kvt)
+                # space-time cylinder G(x, t) = (x, t): tensor product of identity maps, time on parameter axis bdax (coordinate dim-1-bdax)
+                geo = geometry.identity([kv.support() for kv in kvs])
+                tc = dim - 1 - bdax
+                g0 = (lambda *X: 1.0 + X[0] + (2.0 * X[1] if len(X) > 2 or tc != 1 else 0.0)) if False else (lambda *X: 1.0 + sum((k + 1.0) * X[k] for k in range(len(X)) if k != tc))
+                g1 = lambda *X: 0.5 - sum((k + 2.0) * X[k] for k in range(len(X)) if k != tc)
+                try:
+                    idx, vals = assemble.compute_initial_condition_01(kvs, geo, (bdax, side), g0, g1, physical=True)
+                    N = tuple(kv.numdofs for kv in kvs)
+                    C = np.zeros(int(np.prod(N))); C[idx] = vals
+                    f = bspline.BSplineFunc(kvs, C.reshape(N))
+                    T = (a, b)[side]
+                    grid = [np.linspace(kv.support()[0], kv.support()[1], 5) for kv in kvs]; grid[bdax] = np.array([T])
+                    val = f.grid_eval(grid); jac = f.grid_jacobian(grid)
+                    P = geo.grid_eval(grid)
+                    ref0 = g0(*[P[..., k] for k in range(dim)]); ref1 = g1(*[P[..., k] for k in range(dim)])
+                    if not np.allclose(val, ref0, atol=1e-9) or not np.allclose(jac[..., tc], ref1, atol=1e-9):
+                        bad.append('time interval [%g,%g], dim %d, time axis %d, side %d: value dev %.3g, derivative dev %.3g' % (a, b, dim, bdax, side, np.abs(val - ref0).max(), np.abs(jac[..., tc] - ref1).max()))
+                except Exception as e:
+                    bad.append('time interval [%g,%g], dim %d, axis %d, side %d: %s: %s' % (a, b, dim, bdax, side, type(e).__name__, str(e)[:60]))
+print(json.dumps({'reproduced': bool(bad), 'bad': bad[:6]}))
+"""
+
+
 def main():
     run = Run(PID, level='other', description='Algebra of Dirichlet elimination with symbolic matrices, values and index order.')
     thorough = run.tier == 'thorough'
@@ -269,6 +385,20 @@ def main():
         run.absorb(st, 'combine_bcs', bound={'case': 'two conditions of 2 dofs out of 3, all overlaps'})
         for cex in st.cex:
             run.report('combine_bcs', cex['name'], {'kind': 'combine', 'model': jsonable(sx.model_dict(cex['model']))}, True)
+    if run.want('initial'):
+        enc2 = srcload.Encoded(); ins = load_initial(enc2); run.add_encoded(enc2)
+        for dim, p, nint in [(2, 1, 1), (2, 2, 1), (3, 2, 0), (2, 3, 1)] + ([(3, 2, 1), (2, 2, 2), (3, 3, 0)] if thorough else []):
+            st = sx.Stats()
+            for bdax in range(dim):
+                for side in (0, 1):
+                    # one exploration per face: the solve contract (non-linear) must not burden the branch queries of the next face
+                    st.merge(sx.explore(initial_condition_harness(ins, dim, p, nint, False, only=(bdax, side)), timeout_ms=60000, stop_at_first=False, clear_div=True, sat_search=True))
+            st.wall_s = 0.0
+            run.absorb(st, 'initial-condition', bound={'dim': dim, 'time degree': p, 'interior time knots': nint, 'time interval': 'symbolic [a,b]'}, sample={'obligation': 'space-time initial condition', 'dim': dim, 'p': p})
+            if st.cex:
+                r = realbuild.run_real(REPLAY_INIT, {}, only=['bspline_cy'])
+                key = 'initial-condition:%s' % ('time interval other than [0,1]' if r['bad'] and all('[0,1]' not in b for b in r['bad']) else 'pairing')
+                run.report(key, 'compute_initial_condition_01 (dim %d, p=%d): solver: %s; real run: %s' % (dim, p, sorted({cx['name'] for cx in st.cex})[:3], r['bad'][:4]), {'kind': 'initial'}, r['reproduced'])
     if not run.args.no_canaries and run.want('rls'):
         def canary(name, pat, rep, cfg=(3, 3, 2, True, False, False, None)):
             src = srcload.read('pyiga/assemble.py')
@@ -289,6 +419,8 @@ def replay_file(path):
     w = json.load(open(path))['witness']
     if w.get('kind') == 'rls':
         r = realbuild.run_real(REPLAY_RLS, w, only=[])
+    elif w.get('kind') == 'initial':
+        r = realbuild.run_real(REPLAY_INIT, {}, only=['bspline_cy'])
     else:
         r = {'reproduced': True, 'note': 'index-function witnesses are concrete: see model'}
     print(json.dumps(r)); print('REPRODUCED' if r['reproduced'] else 'NOT-REPRODUCED')
